@@ -3,9 +3,9 @@ import gen
 from props.C05 import KINDS, _sub
 
 ID = "C06"
-LEVEL_TEXT = ('For every tree, every filter_/stop predicate on node objects and every maxlevel (any integer or None) the mirror of each iterator is proved equal to the textbook traversal of the admitted tree (nodes at relative depth below maxlevel with no stop node on their path) followed by filter_; maxlevel <= 0 and a stopped start node are proved to yield nothing; grouped iterators proved to yield one tuple per admitted level. Tied to /repo by exhaustive stop x filter x maxlevel enumeration on all shapes up to 4 nodes and sampled larger cases for all five iterators.')
+LEVEL_TEXT = ('For every tree, every filter_/stop predicate on node objects and every maxlevel (any integer or None) the mirror of each iterator is proved equal to the textbook traversal of the admitted tree (nodes at relative depth below maxlevel with no stop node on their path) followed by filter_; maxlevel <= 0 and a stopped start node are proved to yield nothing; grouped iterators proved to yield one tuple per admitted level; filter_ proved to compose (iterating with F and G = iterating with F, then dropping what G rejects, for all five under every stop/maxlevel). Tied to /repo by exhaustive stop x filter x maxlevel enumeration on all shapes up to 4 nodes and sampled larger cases for all five iterators.')
 LEVEL_NOTE = ('Trusted: Lean kernel; standard axioms only; the mirror lean/Anytree/Model/Iter.lean; generators. filter_/stop assumed pure and total. The characterisation of the admitted tree by addresses (membership = no stop on the path and depth < maxlevel) is by definition of Spec.admitT, a 6-line structural recursion.')
-MODULES = ['Anytree.Props.C06', 'Anytree.Props.C06b']
+MODULES = ['Anytree.Props.C06', 'Anytree.Props.C06b', 'Anytree.Props.C06c']
 THEOREMS = [
     ("Anytree.Props.C06.preIter_spec", "full"),
     ("Anytree.Props.C06.postIter_spec", "full"),
@@ -34,6 +34,16 @@ THEOREMS = [
     ("Anytree.Props.C06b.iterators_perm", "full"),
     ("Anytree.Props.C06b.mem_iterators_iff", "full"),
     ("Anytree.Props.C06b.iterators_sublist", "full"),
+    ("Anytree.Props.C06c.filter_andF", "full"),
+    ("Anytree.Props.C06c.zigzagSpec_map_filter", "full"),
+    ("Anytree.Props.C06c.preIter_and", "full"),
+    ("Anytree.Props.C06c.postIter_and", "full"),
+    ("Anytree.Props.C06c.levelIter_and", "full"),
+    ("Anytree.Props.C06c.groupIter_and", "full"),
+    ("Anytree.Props.C06c.zigzagIter_and", "full"),
+    ("Anytree.Props.C06c.preIter_filter", "full"),
+    ("Anytree.Props.C06c.postIter_filter", "full"),
+    ("Anytree.Props.C06c.levelIter_filter", "full"),
 ]
 NOT_COVERED = []
 RULE = ("all shapes up to 4 nodes, root start, every stop subset x every filtered-out subset x maxlevel in "
